@@ -4,15 +4,22 @@
 // sharded map / LRU caches answer every request exactly as the unsharded
 // structures do (capacity aside).
 //
-// Lock and semaphore variants are decided by C01/C02, which run their full
-// oracles on the sharded variants; they are not repeated here.
+// Concurrent use of the sharded map and of the index functions is in
+// c17_conc.go. The lock clause is covered as far as routing goes by
+// c17_lock.go (every key can be held and released through every constructor,
+// the sharded structures keep the entries the unsharded ones keep); blocking,
+// exclusion and fairness of the lock and semaphore variants are decided by
+// C01/C02, which run their full oracles on the sharded variants.
 package c17remap
 
 import (
 	"encoding/binary"
 	"fmt"
 	"math"
+	"reflect"
+	"runtime"
 	"sort"
+	"strings"
 	"sync"
 
 	"github.com/pinealctx/neptune/cache"
@@ -788,6 +795,73 @@ type Op struct {
 	K    int    `json:"k"`           // index into Keys
 	V    int    `json:"v,omitempty"` // value to set
 	Sz   int    `json:"sz,omitempty"`
+	// VK is the kind of value a Set on the map family stores (the map takes any
+	// interface{}): "" the int V, "nil" the nil interface, "zero" the zero value
+	// of a type chosen by V, "slice" / "map" a value of an uncomparable dynamic
+	// type, "same" the identical value the key holds already (the int V if it
+	// holds none).
+	VK string `json:"vk,omitempty"`
+}
+
+const (
+	VKNil   = "nil"
+	VKZero  = "zero"
+	VKSlice = "slice"
+	VKMap   = "map"
+	VKSame  = "same"
+)
+
+// opValue builds the value of a Set on the map family.
+func opValue(op Op) interface{} {
+	switch op.VK {
+	case VKNil:
+		return nil
+	case VKZero:
+		switch op.V % 5 {
+		case 0:
+			return ""
+		case 1:
+			return false
+		case 2:
+			return struct{}{}
+		case 3:
+			return 0.0
+		default:
+			return (*int)(nil)
+		}
+	case VKSlice:
+		if op.V == 0 {
+			return []int(nil)
+		}
+		return []int{op.V}
+	case VKMap:
+		return map[string]int{"v": op.V}
+	}
+	return op.V
+}
+
+// sameValue: the two containers were handed the identical value, so they must
+// hand back the identical value: equal under == where the dynamic type allows
+// it, the same backing store for slices and maps.
+func sameValue(a, b interface{}) bool {
+	if a == nil || b == nil {
+		return a == nil && b == nil
+	}
+	ta, tb := reflect.TypeOf(a), reflect.TypeOf(b)
+	if ta != tb {
+		return false
+	}
+	if ta.Comparable() {
+		return a == b
+	}
+	va, vb := reflect.ValueOf(a), reflect.ValueOf(b)
+	switch ta.Kind() {
+	case reflect.Slice:
+		return va.Len() == vb.Len() && va.IsNil() == vb.IsNil() && (va.Len() == 0 || va.Pointer() == vb.Pointer())
+	case reflect.Map:
+		return va.Pointer() == vb.Pointer()
+	}
+	return reflect.DeepEqual(a, b)
 }
 
 type CaseHist struct {
@@ -811,6 +885,9 @@ func genHist(t *rapid.T, lru bool) CaseHist {
 			op.V = rapid.IntRange(0, 5).Draw(t, "v")
 			if lru {
 				op.Sz = rapid.IntRange(0, 3).Draw(t, "sz")
+			} else {
+				// the plain int comes first: shrinking moves towards it
+				op.VK = rapid.SampledFrom([]string{"", "", "", "", "", "", VKNil, VKZero, VKSlice, VKMap, VKSame, VKSame}).Draw(t, "vkind")
 			}
 		case w < 12:
 			op.Kind = OpGet
@@ -833,6 +910,7 @@ func GenHistLRU(t *rapid.T) CaseHist { return genHist(t, true) }
 // (existed, hasResult).
 type store interface {
 	Set(k interface{}, v, sz int)
+	SetVal(k interface{}, val interface{}) bool // false: the family stores sized ints only
 	Get(k interface{}) (interface{}, bool)
 	Peek(k interface{}) (interface{}, bool, bool) // third: supported
 	Exist(k interface{}) bool
@@ -842,6 +920,7 @@ type store interface {
 type mapStore struct{ m cache.MapFacade }
 
 func (s mapStore) Set(k interface{}, v, _ int)           { s.m.Set(k, v) }
+func (s mapStore) SetVal(k, val interface{}) bool        { s.m.Set(k, val); return true }
 func (s mapStore) Get(k interface{}) (interface{}, bool) { return s.m.Get(k) }
 func (s mapStore) Peek(interface{}) (interface{}, bool, bool) {
 	return nil, false, false
@@ -856,7 +935,8 @@ func (s sized) Size() int { return s.Sz }
 
 type lruStore struct{ l cache.LRUFacade }
 
-func (s lruStore) Set(k interface{}, v, sz int) { s.l.Set(k, sized{v, sz}) }
+func (s lruStore) Set(k interface{}, v, sz int)   { s.l.Set(k, sized{v, sz}) }
+func (s lruStore) SetVal(k, val interface{}) bool { return false }
 func (s lruStore) Get(k interface{}) (interface{}, bool) {
 	v, ok := s.l.Get(k)
 	return unwrap(v), ok
@@ -878,6 +958,7 @@ func unwrap(v cache.Value) interface{} {
 type tinyStore struct{ l tiny.LRU }
 
 func (s tinyStore) Set(k interface{}, v, sz int)          { s.l.Set(k, sized{v, sz}) }
+func (s tinyStore) SetVal(k, val interface{}) bool        { return false }
 func (s tinyStore) Get(k interface{}) (interface{}, bool) { return s.l.Get(k) }
 func (s tinyStore) Peek(k interface{}) (interface{}, bool, bool) {
 	v, ok := s.l.Peek(k)
@@ -916,8 +997,38 @@ var famTiny = family{"tiny.WideLRUCache", func(n uint64, xh bool) (store, store)
 	return tinyStore{tiny.NeWideLRU(hugeCapacity, remap.WithPrime(n))}, tinyStore{tiny.NewSingleLRUCache(hugeCapacity)}
 }}
 
-func execHist(f family, c CaseHist) *vkit.Result {
-	res := &vkit.Result{}
+// panicFailure turns a recovered panic into a failure whose text is the same
+// on every run (functions and lines, no argument words), so that the
+// property library recognises the failure again while it shrinks the case.
+// Call it from the deferred function that recovered.
+func panicFailure(r interface{}, ctx string) *vkit.Failure {
+	pcs := make([]uintptr, 40)
+	frames := runtime.CallersFrames(pcs[:runtime.Callers(3, pcs)])
+	var b strings.Builder
+	for cnt := 0; cnt < 12; {
+		fr, more := frames.Next()
+		if strings.HasPrefix(fr.Function, "verifharness/vkit.") || strings.HasPrefix(fr.Function, "testing.") {
+			break
+		}
+		if fr.Function != "" && !strings.HasPrefix(fr.Function, "runtime.") {
+			fmt.Fprintf(&b, "\n  %s (%s:%d)", fr.Function, fr.File, fr.Line)
+			cnt++
+		}
+		if !more {
+			break
+		}
+	}
+	return &vkit.Failure{Site: "panic", Msg: fmt.Sprintf("%s: panic: %v%s", ctx, r, b.String())}
+}
+
+func execHist(f family, c CaseHist) (res *vkit.Result) {
+	res = &vkit.Result{}
+	doing := "before the first call"
+	defer func() {
+		if r := recover(); r != nil {
+			res = &vkit.Result{Fail: panicFailure(r, f.name+", "+doing)}
+		}
+	}()
 	n := c.Shards
 	if n < 1 || n > maxShards {
 		res.Skip("shards-out-of-domain")
@@ -956,6 +1067,7 @@ func execHist(f family, c CaseHist) *vkit.Result {
 			continue
 		}
 		k := vals[op.K]
+		doing = fmt.Sprintf("%s of a %s value (int %d): %s", op.Kind, map[bool]string{true: op.VK, false: "plain"}[op.VK != ""], op.V, ctx(i))
 		usedTypes[c.Keys[op.K].T] = true
 		usedKeys[op.K] = true
 		switch op.Kind {
@@ -965,12 +1077,33 @@ func execHist(f family, c CaseHist) *vkit.Result {
 			} else {
 				res.Class("set-new")
 			}
-			wide.Set(k, op.V, op.Sz)
-			single.Set(k, op.V, op.Sz)
+			val, special := opValue(op), op.VK != ""
+			if op.VK == VKSame {
+				if cur, ok := single.Get(k); ok {
+					val = cur
+					res.Class("value=identical-to-the-stored-one")
+				}
+			}
+			if special && val == nil {
+				res.Class("value=nil")
+			} else if special && !reflect.TypeOf(val).Comparable() {
+				res.Class("value=uncomparable-type")
+			} else if op.VK == VKZero {
+				res.Class("value=zero-of-a-type")
+			}
+			if !special || !wide.SetVal(k, val) {
+				if special {
+					res.Skip("value-kind-on-lru")
+				}
+				wide.Set(k, op.V, op.Sz)
+				single.Set(k, op.V, op.Sz)
+			} else {
+				single.SetVal(k, val)
+			}
 		case OpGet:
 			wv, wok := wide.Get(k)
 			sv, sok := single.Get(k)
-			if wok != sok || wv != sv {
+			if wok != sok || !sameValue(wv, sv) {
 				return res.Failf(f.name+".Get", "%s: sharded Get = (%v,%v), unsharded = (%v,%v)", ctx(i), wv, wok, sv, sok)
 			}
 			if sok {
@@ -985,7 +1118,7 @@ func execHist(f family, c CaseHist) *vkit.Result {
 				continue
 			}
 			sv, sok, _ := single.Peek(k)
-			if wok != sok || wv != sv {
+			if wok != sok || !sameValue(wv, sv) {
 				return res.Failf(f.name+".Peek", "%s: sharded Peek = (%v,%v), unsharded = (%v,%v)", ctx(i), wv, wok, sv, sok)
 			}
 			if sok {
@@ -1019,6 +1152,7 @@ func execHist(f family, c CaseHist) *vkit.Result {
 			res.Skip("unknown-op")
 		}
 	}
+	doing = fmt.Sprintf("%s routing, %d shards, final sweep", route, n)
 	// final sweep over the whole key pool with the non-mutating observers
 	for i := range c.Keys {
 		if !usable[i] {
@@ -1034,7 +1168,7 @@ func execHist(f family, c CaseHist) *vkit.Result {
 			wv, wok = wide.Get(k)
 			sv, sok = single.Get(k)
 		}
-		if wok != sok || wv != sv {
+		if wok != sok || !sameValue(wv, sv) {
 			return res.Failf(f.name+"/final", "%s routing, %d shards, end of history: value of %v sharded (%v,%v), unsharded (%v,%v)", route, n, c.Keys[i], wv, wok, sv, sok)
 		}
 	}
@@ -1114,7 +1248,7 @@ const histRule = "rapid: shard count (as above, but 65521 at 5% and {509,1000,10
 
 var PartMap = &vkit.Part[CaseHist]{
 	Property: Property, Name: "widemap",
-	Rule:  "cache.NewWideMap / NewWideXHashMap vs cache.NewSingleMap. " + histRule,
+	Rule:  "cache.NewWideMap / NewWideXHashMap vs cache.NewSingleMap; half of the Sets store, instead of the int, the nil interface, the zero value of a type (string, bool, struct{}, float64, *int), a []int (incl. the nil slice) or a map[string]int, or the identical value the key holds already - both containers get the identical value and must return it (==, or the same backing store for uncomparable types). " + histRule,
 	Quick: 4500, Thorough: 6000,
 	Gen: GenHistMap, Exec: ExecHistMap,
 }
